@@ -92,10 +92,29 @@ Proof.
   induction F; cbn [map]; constructor; [now apply sol_ok_sound | assumption].
 Qed.
 
+(* the fall-back solver (plain Gaussian elimination over Q) is verified the same way *)
+Lemma gauss_len k : forall rows sol, gauss k rows = Some sol -> length sol = k.
+Proof.
+  induction k as [|k IH]; intros rows sol H; cbn [gauss] in H.
+  - inversion H; reflexivity.
+  - destruct (qfind_pivot rows) as [[[|p r] others]|]; try discriminate.
+    destruct (gauss k _) as [s|] eqn:E; [|discriminate]. inversion H; subst. cbn [length]. f_equal. eapply IH; eauto.
+Qed.
+Lemma veqb_len a b : veqb a b = true -> length a = length b.
+Proof. intros H. apply veqb_Forall2 in H. induction H; cbn; congruence. Qed.
+Lemma solve_gauss_sound A b beta : solve_gauss A b = Some beta ->
+  Forall2 Qeq (mat_vec A beta) b /\ length beta = length b /\ length A = length b.
+Proof.
+  unfold solve_gauss. destruct (gauss _ _) as [s|] eqn:E; [|discriminate].
+  destruct (veqb _ _) eqn:V; [|discriminate]. intros H; inversion H; subst.
+  pose proof (veqb_len _ _ V) as L. unfold mat_vec in L. rewrite map_length in L.
+  apply gauss_len in E. split; [now apply veqb_Forall2 | split; congruence].
+Qed.
+
 Theorem solve_checked_sound A b beta : solve_checked A b = Some beta ->
   Forall2 Qeq (mat_vec A beta) b /\ length beta = length b /\ length A = length b.
 Proof.
-  unfold solve_checked. destruct (solve_multi_checked A [b]) as [[|s [|]]|] eqn:E; try discriminate.
+  unfold solve_checked. destruct (solve_multi_checked A [b]) as [[|s [|]]|] eqn:E; try apply solve_gauss_sound.
   intros H; inversion H; subst. apply solve_multi_checked_sound in E. inversion E; subst. assumption.
 Qed.
 
